@@ -537,7 +537,7 @@ func (i *Interpreter) ProcessPass() error {
 	i.SetScope(context.PassScope)
 	i.passed = true
 
-	if i.ctx.Backend == nil {
+	if i.ctx.Backend == nil || (i.ctx.Backend.Value == nil && i.ctx.Backend.Director == nil) {
 		return exception.Runtime(nil, "No backend determined in PASS")
 	}
 
@@ -592,6 +592,10 @@ func (i *Interpreter) ProcessFetch() error {
 
 	if i.ctx.BackendRequest == nil {
 		return exception.System("No backend determined on FETCH")
+	}
+	// req.backend may be changed to not set BACKEND or a director in MISS or PASS
+	if i.ctx.Backend == nil || i.ctx.Backend.Value == nil {
+		return exception.Runtime(nil, "No backend determined in FETCH")
 	}
 
 	// Send request to backend
